@@ -117,8 +117,13 @@ CHECKS = {
             "any program whose final sign succeeds is loaded back (C10_program_roundtrip; refused calls change nothing; the "
             "name premises are premises about the program's delegate_role calls, C10_roles_come_from_program), the two target "
             "maps of a TargetsEditor refine one abstract map (C10_edit_refines_map) and the client finds in the top-level role "
-            "exactly that map after the operations made on it (C10_program_targets_seen). Not proved for the composed system: the cross-party flow "
-            "(role holder signs elsewhere, update_delegated_targets, sign), target publication and download; these, odd names, "
+            "exactly that map after the operations made on it (C10_program_targets_seen); signing a role back into the tree "
+            "changes that role and nothing any other role says itself (C10_role_update_sets, C10_role_update_frame). The "
+            "cross-party flow is an operation of the same state machine (the holder of a delegated role edits and signs "
+            "elsewhere, update_delegated_targets: accepted only with the delegating role's threshold of distinct authorised "
+            "signatures and a version not lower, the role then holds the incoming document, C10_update_checked) and programs "
+            "containing it are covered by C10_program_roundtrip (C10_cross_party_example). Not modelled: update_delegated_targets "
+            "on the top-level role or bringing new delegated roles, add_role, target publication and download; these, odd names, "
             "copy/symlink publication are covered by the correspondence runs with an independent Python tracker of what was "
             "put in. Known finding: url_encoded_target_name.",
             NOTE + MODELLED + " The Gallina models of sign + write (ed_sign, ed_sign_tree) are executed on every run against "
